@@ -77,6 +77,54 @@ def _cmp(body, what, rx):
     return m.groups()
 
 
+def _scope_of(body, pos):
+    """(open, close) of the innermost brace block of `body` containing `pos`; the whole body if none"""
+    best = (-1, len(body))
+    for m in re.finditer(r"\{", body):
+        o = m.start()
+        try:
+            c = cxxscan.match_brace(body, o)
+        except cxxscan.ScanError:
+            continue
+        if o < pos < c and o > best[0]:
+            best = (o, c)
+    return best
+
+
+def _all_guarded(body, what, lock_rx, touch_rxs):
+    """True iff EVERY occurrence of every pattern in `touch_rxs` lies after a lock declaration matching `lock_rx` and inside the
+    brace scope in which that lock is declared (so the lock is taken first and held over the access).  Every pattern must occur."""
+    locks = []
+    for m in re.finditer(lock_rx, body):
+        o, c = _scope_of(body, m.start())
+        locks.append((m.end(), c))
+    ok = True
+    for rx in touch_rxs:
+        occ = list(re.finditer(rx, body))
+        if not occ:
+            raise TranslateError("%s: expected state access `%s` not found" % (what, rx))
+        for m in occ:
+            if not any(a <= m.start() < c for a, c in locks):
+                ok = False
+    return ok
+
+
+def _none_guarded(body, what, lock_rx, rxs):
+    """True iff NO occurrence of the patterns lies inside a scope in which a lock matching `lock_rx` is held"""
+    locks = []
+    for m in re.finditer(lock_rx, body):
+        o, c = _scope_of(body, m.start())
+        locks.append((m.end(), c))
+    for rx in rxs:
+        occ = list(re.finditer(rx, body))
+        if not occ:
+            raise TranslateError("%s: expected call `%s` not found" % (what, rx))
+        for m in occ:
+            if any(a <= m.start() < c for a, c in locks):
+                return False
+    return True
+
+
 def gen(repo):
     fw = "include/iora/core/timing_wheel.hpp"
     ft = "include/iora/core/timer.hpp"
@@ -149,6 +197,22 @@ def gen(repo):
     ins = cxxscan.function_body(w, "insertEntry")
     if not re.search(r"if\s*\(\s*ticks\s*<=\s*0\s*\)", ins) or not re.search(r"while\s*\(\s*level\s*<\s*_numWheels\s*-\s*1\s*&&\s*ticks\s*>=\s*levelCap\s*\)", ins):
         raise TranslateError("insertEntry: `if (ticks <= 0)` / level loop shape not recognised")
+
+    # ---- _wheelMutex: every function the model treats as one atomic step takes the mutex first and holds it over all its accesses
+    WL = r"std::lock_guard\s+lock\s*\(\s*_wheelMutex\s*\)"
+    wheel_sections = [
+        ("schedule", sched, [r"allocEntry\s*\(", r"insertEntry\s*\(", r"_entryMap\s*\["]),
+        ("cancel", cxxscan.function_body(w, "cancel"), [r"_entryMap\.find\s*\(", r"unlinkEntry\s*\(", r"_entryMap\.erase\s*\(", r"freeEntry\s*\("]),
+        ("reschedule", cxxscan.function_body(w, "reschedule"), [r"_entryMap\.find\s*\(", r"unlinkEntry\s*\(", r"entry->deadline\s*=", r"insertEntry\s*\("]),
+        ("advance", adv, [r"_lastAdvanceTime", r"collectFromBucket\s*\(", r"currentTick\+\+", r"cascadeDown\s*\("]),
+        ("start", cxxscan.function_body(w, "start"), [r"_lastAdvanceTime\s*="]),
+        ("drain", drain, [r"b\.unlink\s*\(", r"_entryMap\.clear\s*\(", r"freeEntry\s*\(", r"_entryMap\.size\s*\("]),
+        ("clearAllEntries", cxxscan.function_body(w, "clearAllEntries"), [r"_entryMap\.clear\s*\(", r"b\.head\s*=", r"freeEntry\s*\(", r"_entryMap\.size\s*\("]),
+        ("reset", cxxscan.function_body(w, "reset"), [r"w\.currentTick\s*=", r"_lastAdvanceTime\s*="]),
+        ("pendingCount", cxxscan.function_body(w, "pendingCount"), [r"_entryMap\.size\s*\("]),
+    ]
+    wheel_locked = [n for n, body, touches in wheel_sections if _all_guarded(body, "TimingWheel::" + n, WL, touches)]
+    wheel_fire_outside = _none_guarded(adv, "advance", WL, [r"fireCallback\s*\("]) and _none_guarded(drain, "TimingWheel::drain", WL, [r"fireCallback\s*\("])
 
     kv_tick = cxxscan.find_int(r"ttlTickDuration\s*\{\s*(\w+)\s*\}", k, "KVStoreConfig::ttlTickDuration")
     kv_slots = cxxscan.find_int(r"ttlTicksPerWheel\s*=\s*(\w+)\s*;", k, "KVStoreConfig::ttlTicksPerWheel")
@@ -282,6 +346,53 @@ def gen(repo):
             raise TranslateError("TimerService::cancel: the guard store is under an unrecognised condition: %s" % conds)
         guard_unconditional = not inside_transition
 
+    # ---- _mutex: every section the service model treats as atomic takes the mutex first and holds it over all its accesses
+    ML = r"std::(?:lock_guard|unique_lock)<std::mutex>\s+lock\s*\(\s*_mutex\s*\)"
+    svc_sections = [
+        ("scheduleAt", sa, [r"_accepting\.load\s*\(\s*std::memory_order_relaxed", r"_records\.size\s*\(", r"\+\+_nextId", r"_records\.emplace\s*\(", r"_heap\.emplace_back\s*\(", r"siftUp\s*\("]),
+        ("schedulePeriodic", sp, [r"_accepting\.load\s*\(\s*std::memory_order_relaxed", r"_periodicTimers\.size\s*\(", r"_records\.size\s*\(", r"\+\+_nextId", r"_periodicTimers\.emplace\s*\(",
+                                  r"_records\.emplace\s*\(", r"_heap\.emplace_back\s*\(", r"siftUp\s*\("]),
+        ("cancel", cb, [r"_records\.find\s*\(", r"it->second\.canceled\s*=\s*true", r"_periodicTimers\.find\s*\(", r"cancelFlag->store\s*\(", r"_periodicTimers\.erase\s*\("]
+         if has_flag_member else [r"_records\.find\s*\(", r"it->second\.canceled\s*=\s*true", r"_periodicTimers\.find\s*\(", r"_periodicTimers\.erase\s*\("]),
+        ("drain.gate", dr, [r"compare_exchange_strong\s*\(\s*expected\s*,\s*LifecycleState::Draining", r"_accepting\.store\s*\(\s*false"]),
+        ("drain.sweep", dr, [r"rec\.canceled\s*=\s*true", r"pt\.canceled\s*=\s*true", r"_records\.find\s*\("]),
+        ("drain.wait", dr, [r"_drainCV\.wait\s*\(", r"_drainCV\.wait_for\s*\(", r"!\s*drainDone\s*\(\s*\)"]),
+        ("drain.restore", dr, [r"compare_exchange_strong\s*\(\s*drainExpected", r"_accepting\.store\s*\(\s*true"]),
+        ("stop.flag", sb, [r"_accepting\.store\s*\(\s*false"]) if stop_clears else ("stop.flag", "", []),
+        ("markStopped", cxxscan.function_body(t, "markStopped"), [r"_accepting\.store\s*\(\s*false", r"_lifecycleState\.store\s*\("]) if via_mark else ("markStopped", "", []),
+        ("reset", cxxscan.function_body(t, "reset", signature_contains="override"), [r"_records\.clear\s*\(", r"_periodicTimers\.clear\s*\(", r"_heap\.clear\s*\(", r"_nextId\s*=\s*0"]),
+        ("getInFlightCount", cxxscan.function_body(t, "getInFlightCount"), [r":\s*_records\s*\)"]),
+        ("runLoop.collect", rl, [r"collectDueLocked\s*\(", r"_executingCallbacks\.fetch_add\s*\(", r"heapTop\s*\(", r"programTimerfd\s*\("]),
+    ]
+    svc_locked = [n for n, body, touches in svc_sections if touches and _all_guarded(body, "TimerService::" + n, ML, touches)]
+    svc_run_outside = _none_guarded(rl, "runLoop", ML, [r"safeRun\s*\("])
+    # the restore of `_accepting` happens only if the CAS Draining -> Running succeeded: the store sits inside the braces of that `if`
+    stores_true = [m.start() for m in re.finditer(r"_accepting\.store\s*\(\s*true", dr)]
+    restore_inside_cas = False
+    if drain_restores:
+        mc = re.search(r"if\s*\(\s*_lifecycleState\.compare_exchange_strong\s*\(\s*drainExpected\s*,\s*LifecycleState::Running", dr)
+        if not mc:
+            raise TranslateError("TimerService::drain: `if (_lifecycleState.compare_exchange_strong(drainExpected, LifecycleState::Running` not found")
+        # closing paren of the if-condition, then its block
+        i = dr.index("(", mc.start())
+        depth = 0
+        j = i
+        while j < len(dr):
+            if dr[j] == "(":
+                depth += 1
+            elif dr[j] == ")":
+                depth -= 1
+                if depth == 0:
+                    break
+            j += 1
+        k2 = j + 1
+        while k2 < len(dr) and dr[k2] in " \t\r\n":
+            k2 += 1
+        if k2 >= len(dr) or dr[k2] != "{":
+            raise TranslateError("TimerService::drain: the CAS-if of the restore path has no braced block")
+        blk_end = cxxscan.match_brace(dr, k2)
+        restore_inside_cas = len(stores_true) == 1 and k2 < stores_true[0] < blk_end
+
     out = HEADER % (fw + ", " + ft + ", " + fk)
     out += "namespace Iora.Gen.Timer\n"
     out += "/-- `TimingWheel::schedule`: `_accepting` is tested again after `_wheelMutex` is taken and before `insertEntry` (F32) -/\n"
@@ -323,5 +434,16 @@ def gen(repo):
     out += "/-- `cancel()` closes the guard for every periodic entry it finds, not only on the transition `!entry.canceled` (a `drain` sweep sets\n"
     out += "`entry.canceled` without closing the guard) -/\n"
     out += "def svcCancelClosesGuardAlways : Bool := %s\n" % _bool(guard_unconditional)
+    out += "/-- wheel functions all of whose accesses to the wheel state come after `std::lock_guard lock(_wheelMutex)` and inside its scope -/\n"
+    out += "def wheelMutexSections : List String := %s\n" % _lean_str_list(wheel_locked)
+    out += "/-- `advance` / `drain` call `fireCallback` outside every `_wheelMutex` scope (collect-then-fire) -/\n"
+    out += "def wheelFiresOutsideLock : Bool := %s\n" % _bool(wheel_fire_outside)
+    out += "/-- service sections all of whose accesses to `_records/_periodicTimers/_heap/_nextId/_accepting/_lifecycleState` come after the\n"
+    out += "`_mutex` lock declaration and inside its scope -/\n"
+    out += "def svcMutexSections : List String := %s\n" % _lean_str_list(svc_locked)
+    out += "/-- `runLoop` calls `safeRun` (the handlers) outside every `_mutex` scope -/\n"
+    out += "def svcHandlersRunOutsideLock : Bool := %s\n" % _bool(svc_run_outside)
+    out += "/-- `drain`: the only `_accepting.store(true)` sits inside the braces of `if (CAS Draining -> Running)` -/\n"
+    out += "def svcDrainRestoreInsideCas : Bool := %s\n" % _bool(restore_inside_cas)
     out += "end Iora.Gen.Timer\n"
     return "IoraModel/Gen/Timer.lean", out
